@@ -174,8 +174,10 @@ class SimpleClient:
         while not self.input_buffer:
             if not self.connected_event.wait(
                     timeout=timeout):  # pragma: no cover
+                if self.input_buffer:
+                    break
                 raise TimeoutError()
-            if not self.connected:
+            if not self.connected and not self.input_buffer:
                 raise DisconnectedError()
             if not self.input_event.wait(timeout=timeout):
                 raise TimeoutError()
